@@ -1,6 +1,7 @@
 from __future__ import annotations
 
 import asyncio
+import json
 import sys
 import uuid
 from abc import ABC, abstractmethod
@@ -491,6 +492,11 @@ class Step(PersistableEntity, ABC):
                     params=await self._save_additional_params(database),
                 )
                 self._saving.set()
+        else:
+            await database.update_step(
+                self.persistent_id,
+                {"params": json.dumps(await self._save_additional_params(database))},
+            )
         await asyncio.gather(
             *(
                 asyncio.create_task(
